@@ -151,11 +151,14 @@ theorem reader_anchor_live {sh : Sh} {ts : List PC} (hr : Reachable (sh, ts)) (j
   cases ts[j] <;> simp [isReaderOf, TOK]
   intro h1 h2; rw [← h1]; exact h2
 
-/-- Shape-independent core of `deleted_not_opened_after`: whatever setKey() does, a reader never gets an entry whose deletion was
-acknowledged in this period, provided no setKey() overwrote a set `waitingToBeFreed` of this anchor in the period (`lost = false`).
-Before /repo 19b0a93 (`setKey()` assigned `waitingToBeFreed = markedForDeletion(key)`) this proviso was the excluded region and the
-statement without it was false: `deleted_not_opened_after_counterexample_prefix`. With a setKey() that only sets the flag the
-proviso is an invariant (`AInv.lf`). -/
+/-- **A deleted entry is not opened afterwards.** `delDone` records that a delete request (freeEntry(f), or freeEntryByKey(k) that
+found key `k` at `f`) issued in the current period of the anchor (since its last rewind()) has returned; a reader that is about to
+get the entry has seen `waitingToBeFreed == false`.
+The statement without the hypothesis `lost = false` is FALSE of the code as it stands (`deleted_not_opened_after_counterexample`):
+`StoreMapAnchor::setKey()` assigns `waitingToBeFreed = markedForDeletion(key)` after copying the key, which erases a mark set by a
+concurrent freeEntry/freeEntryByKey. The excluded region is the explicit hypothesis `lost = false`: no setKey() has overwritten a set
+`waitingToBeFreed` of this anchor in the current period. (`deleted_not_opened_after` below: for a setKey() that never clears the flag
+the hypothesis is a theorem.) -/
 theorem deleted_not_opened_after_partial {sh : Sh} {ts : List PC} (hr : Reachable (sh, ts)) (i : Nat) (hi : i < ts.length)
     (f k : Nat) (hp : ts[i] = .orW f k) (ch : Bool) (hs : (act sh (.orW f k) ch).2.1 = .holdR f)
     (hl : (sh.a f).lost = false) : (sh.a f).delDone = false := by
@@ -168,25 +171,13 @@ theorem deleted_not_opened_after_partial {sh : Sh} {ts : List PC} (hr : Reachabl
   · rfl
   · rcases dd hd with h | h <;> simp_all
 
-/-- The shape of `StoreMapAnchor::setKey()` in the staged tree, recorded by the translator by *executing* the staged code
-(Gen/StoreMapCfg.lean): it only ever sets `waitingToBeFreed` (/repo 19b0a93). If the code regresses to an assignment the translator
-regenerates `false` and this obligation, hence the headline theorem below, breaks. -/
-theorem setKeyOnlySets_holds : SquidModel.Gen.StoreMapCfg.setKeyOnlySets = true := by decide
-
-/-- **A deleted entry is not opened afterwards** — full strength. When openForReadingAt(f, k) is about to return success, no delete
-request (freeEntry(f), or freeEntryByKey(k) that found key `k` at `f`) issued in the current period of the anchor (since its last
-rewind()) has returned: `delDone = false`. Stated over the generated flag so that the proof is the same object in either world;
-`deleted_not_opened_after_now` instantiates it for the tree as it stands. -/
+/-- Full statement, for the shape of setKey() recorded by the translator (Gen/StoreMapCfg.lean, from executing the staged code): when
+setKey() only ever sets `waitingToBeFreed` (the candidate repair notes/fixes/C55-setkey-clears-mark.diff), a deleted entry is never
+opened afterwards. -/
 theorem deleted_not_opened_after (hfix : SquidModel.Gen.StoreMapCfg.setKeyOnlySets = true) {sh : Sh} {ts : List PC}
     (hr : Reachable (sh, ts)) (i : Nat) (hi : i < ts.length) (f k : Nat) (hp : ts[i] = .orW f k) (ch : Bool)
     (hs : (act sh (.orW f k) ch).2.1 = .holdR f) : (sh.a f).delDone = false :=
   deleted_not_opened_after_partial hr i hi f k hp ch hs ((ainv_reachable hr f).lf hfix)
-
-/-- the headline for the tree as it stands -/
-theorem deleted_not_opened_after_now {sh : Sh} {ts : List PC}
-    (hr : Reachable (sh, ts)) (i : Nat) (hi : i < ts.length) (f k : Nat) (hp : ts[i] = .orW f k) (ch : Bool)
-    (hs : (act sh (.orW f k) ch).2.1 = .holdR f) : (sh.a f).delDone = false :=
-  deleted_not_opened_after setKeyOnlySets_holds hr i hi f k hp ch hs
 
 /-- what `delDone` means, 1: freeEntry(f) that could not lock the entry marks it and returns: the request is recorded -/
 theorem freeEntry_records_delete (sh : Sh) (f : Nat) (ch : Bool) :
@@ -210,10 +201,9 @@ def cexCmds : List Cmd :=
 
 def cexCfg : Cfg := run (Sh.init 2, List.replicate 3 PC.idle) cexCmds
 
-/-- PRE-FIX (finding C55-setkey-clears-mark, fixed in /repo 19b0a93): with a setKey() that assigns the flag, the protocol opens an entry
-whose deletion was requested, and acknowledged, before the reader even called. Kept under the hypothesis that the staged code has that
-old shape; on the repaired tree the hypothesis is false and the run `cexCmds` ends with the reader refused (corpus regression cases). -/
-theorem deleted_not_opened_after_counterexample_prefix (hbug : SquidModel.Gen.StoreMapCfg.setKeyOnlySets = false) :
+/-- The protocol with a setKey() that assigns the flag opens an entry whose deletion was requested, and acknowledged, before the reader
+even called. (Stated under the hypothesis that the staged code has this shape, so that the theorem survives the repair.) -/
+theorem deleted_not_opened_after_counterexample (hbug : SquidModel.Gen.StoreMapCfg.setKeyOnlySets = false) :
     Reachable cexCfg ∧ cexCfg.2 = [.idle, .idle, .holdR 0] ∧ (cexCfg.1.a 0).delDone = true ∧ (cexCfg.1.a 0).lost = true ∧
     (cexCfg.1.a 0).key = 2 ∧ (cexCfg.1.a 0).complete = true := by
   first
